@@ -121,13 +121,14 @@ def fixed_recipes(rng, quick):
         g0, _ = G.build(dict(base=base))
         nf = g0.num_faces
         out.append(dict(base=base))
-        out.append(dict(base=dict(kind="patch", name=name, z=3)))
+        if not quick:
+            out.append(dict(base=dict(kind="patch", name=name, z=3)))
         out.append(dict(base=base, ops=[dict(op="reorient", reverse=[f for f in range(nf) if rng.random() < 0.5])]))
         out.append(dict(base=base, ops=[dict(op="reorient", reverse=list(range(nf)))]))
         # inconsistent orientation: only meaningful for convex cells - TLC decides (strict is switched off)
         out.append(dict(base=base, ops=[dict(op="reorient", swap=[f for f in range(nf) if rng.random() < 0.5] or [0])],
                         nonstrict=True))
-        for A in G.SHEARS_2D[: (2 if quick else 4)]:
+        for A in G.SHEARS_2D[: (1 if quick else 4)]:
             r = dict(base=base, ops=[dict(op="affine", A=A)])
             if in_box(r):
                 out.append(r)
@@ -139,7 +140,7 @@ def fixed_recipes(rng, quick):
                 op="reorient", reverse=[f for f in range(gp.num_faces) if rng.random() < 0.5],
                 rotate=[f for f in range(gp.num_faces) if rng.random() < 0.5])]))
             r = dict(base=pb, nonstrict=True, ops=[dict(op="affine", A=rng.choice(G.SHEARS_3D))])
-            if in_box(r):
+            if in_box(r) and not quick:
                 out.append(r)
     return out
 
@@ -202,18 +203,18 @@ def run(ctx):
         if dim == 1:
             recipes += line_recipes(rng, axes[0], 1 if q else 3)
             continue
-        if q and dim == 3 and k % 3 != 1:
-            continue  # quick: a third of the (very similar) 3D boxes
-        # the variants only for every second (2D) / sixth (3D) emitted grid (thorough: third / eighth)
-        full = k % ((2 if dim == 2 else 6) if q else (3 if dim == 2 else 8)) == 1
+        if q and dim == 3 and k % 6 != 1:
+            continue  # quick: a sixth of the (very similar) 3D boxes
+        # the variants only for some of the emitted grids: quick every 5th (2D) / 18th (3D), thorough 3rd / 8th
+        full = k % ((5 if dim == 2 else 18) if q else (3 if dim == 2 else 8)) == 1
         nr = 1 if q else 2
         base = dict(kind="tensor", axes=axes, cart=True)
         recipes += variants(rng, base, nr) if full else [dict(base=base)]
         nsimp = r["cells"] * (2 if dim == 2 else 6)
-        if nsimp <= (12 if q else 24):
+        if nsimp <= (12 if q else 24) and (full or not q or k % 2 == 1):
             sb = dict(kind="simplex", axes=axes)
             recipes += variants(rng, sb, nr) if full else [dict(base=sb)]
-            if full or dim == 2:
+            if full or (dim == 2 and (not q or k % 4 == 1)):
                 vperm = [rng.sample(range(dim + 1), dim + 1) for _ in range(nsimp)]
                 rb = dict(kind="rawsimplex", axes=axes, vperm=vperm)
                 vs = variants(rng, rb, 1)
